@@ -107,3 +107,127 @@ Theorem C16_source_wiring : forall cfg parser,
      else const = 0) /\
     hd_error l = Some (EAutoFFC true).
 Proof. exact wiring_facts. Qed.
+
+(* ---- source tie: the snapshot request path, as cmd/thermal-recorder/snapshot.go and service.go are now ----
+   coq/translated/Snapshot.v is newSnapshot, newSnapshotRecording and the service methods TakeSnapshot,
+   TakeTestRecording, CameraInfo regenerated from the Go source on every run (translate/request.go);
+   snapshotRecordingTriggers (a timer loop sleeping for hours) is the one function of snapshot.go left outside, and is
+   listed as such.  model/SnapExt.v gives the calls that leave the translation their meaning: a clock script, the
+   package variables previousSnapshotTime / processor (nil or an object with CurrentFrame, the frame
+   GetRecentFrame hands out, StartSnapshot) / headerInfo, Status.FrameCount by frame handle, and a log of every
+   mutex operation and every access to that state.  proofs/TieSnap.v proves, for EVERY state of that world and
+   every lastFrame (no side condition - the Go code forces none): *)
+From TR Require Import translated.Snapshot model.SnapExt proofs.TieSnap.
+
+Theorem C16_source_snapshot_translated :
+  untranslated_Snapshot = ["Snapshot_fn_snapshotRecordingTriggers"%string] /\ ext_names_Snapshot = sext_names.
+Proof. exact (conj snapshot_untranslated snapshot_ext_names_known). Qed.
+
+(* newSnapshot never panics; its result, the world it leaves and what it adds to the log are the hand-written
+   description [snap_ret] / [snap_world] (previousSnapshotTime, processor, headerInfo unchanged; the log grows by
+   [snap_log]), decided by the five cases of [snap_case] *)
+Theorem C16_source_snapshot_tie : forall lastFrame w,
+  src_newSnapshot lastFrame w = Ok (snap_ret lastFrame w) (snap_world lastFrame w).
+Proof. exact tie_newSnapshot. Qed.
+
+(* locking: on every path - the four early returns included - newSnapshot (and TakeSnapshot around it) adds to the
+   log  Lock :: accesses ++ [Unlock]:  one Lock, before anything is touched, one Unlock, last, no nil dereference *)
+Theorem C16_source_snapshot_locked : forall lastFrame w,
+  (exists r w', src_newSnapshot lastFrame w = Ok r w' /\ disciplined (log_since w w') = true) /\
+  (exists r w', src_TakeSnapshot lastFrame w = Ok r w' /\ disciplined (log_since w w') = true).
+Proof. exact (fun lf w => conj (newSnapshot_locked lf w) (TakeSnapshot_locked lf w)). Qed.
+
+(* (nil, nil) exactly inside the quiet period: time.Since(previousSnapshotTime) < 500 ms at the clock reading taken *)
+Theorem C16_source_snapshot_quiet_iff : forall lastFrame w,
+  snap_ret lastFrame w = (NIL_FRAME, 0) <-> go_time_sub (hd 0 (sw_clock w)) (sw_prev w) < 500000000.
+Proof. exact snap_nil_nil_iff. Qed.
+
+(* FINDING (not a violation of C16): nothing ever assigns previousSnapshotTime - no entry point of the translated
+   unit changes it, "set:previousSnapshotTime" is not among the calls the unit makes, no other file of the
+   repository names it.  It stays Go's zero time; for every clock reading from 500 ms after 0001-01-01 on the quiet
+   period does not apply: (nil, nil) is never returned, snapshot requests are not rate-limited at all. *)
+Theorem C16_source_snapshot_quiet_period_dead :
+  (forall lf w, sw_prev (snap_world lf w) = sw_prev w) /\
+  (forall w, sw_prev (rec_world w) = sw_prev w) /\
+  (forall w, sw_prev (ci_world w) = sw_prev w) /\
+  existsb (String.eqb "set:previousSnapshotTime") ext_names_Snapshot = false /\
+  (forall lf w, sw_prev w = 0 -> 500000000 <= hd 0 (sw_clock w) -> snap_case lf w <> SQuiet /\ snap_ret lf w <> (NIL_FRAME, 0)).
+Proof. exact snapshot_quiet_period_dead. Qed.
+
+(* the error before the first connection *)
+Theorem C16_source_snapshot_not_started_iff : forall lastFrame w,
+  snap_case lastFrame w = SNotStarted <-> 500000000 <= go_time_sub (hd 0 (sw_clock w)) (sw_prev w) /\ sw_proc w = None.
+Proof. exact snap_case_not_started. Qed.
+
+(* "no new frames yet" iff lastFrame >= 0 and uint32(lastFrame) == CurrentFrame - stated exactly: lastFrame is a
+   64-bit int, the conversion keeps its low 32 bits, so lastFrame = CurrentFrame + k * 2^32 is answered the same
+   way (snap_ex_no_new_wrapped); a negative lastFrame never is, not even -1 against CurrentFrame = 2^32 - 1 *)
+Theorem C16_source_snapshot_no_new_iff : forall lastFrame w,
+  snap_case lastFrame w = SNoNew <->
+  500000000 <= go_time_sub (hd 0 (sw_clock w)) (sw_prev w) /\
+  exists p, sw_proc w = Some p /\ 0 <= lastFrame /\ lastFrame mod 2 ^ 32 = po_cur p mod 2 ^ 32.
+Proof. exact snap_case_no_new. Qed.
+
+(* otherwise the processor's recent frame (or "no frames yet" when that is nil), its FrameCount filled in with
+   CurrentFrame only if it was 0 *)
+Theorem C16_source_snapshot_frame_iff : forall lastFrame w h c,
+  snap_case lastFrame w = SFrame h c <->
+  500000000 <= go_time_sub (hd 0 (sw_clock w)) (sw_prev w) /\
+  exists p, sw_proc w = Some p /\ ~ (0 <= lastFrame /\ lastFrame mod 2 ^ 32 = po_cur p mod 2 ^ 32) /\
+     h = po_recent p /\ h <> NIL_FRAME /\
+     c = (if fc_get (sw_fc w) h =? 0 then po_cur p mod 2 ^ 32 else fc_get (sw_fc w) h).
+Proof. exact snap_case_frame. Qed.
+
+(* what is returned in each case, read off the final world *)
+Theorem C16_source_snapshot_result : forall lastFrame w,
+  let r := snap_ret lastFrame w in let w' := snap_world lastFrame w in
+  match snap_case lastFrame w with
+  | SQuiet => r = (NIL_FRAME, 0)
+  | SFrame h c => r = (h, 0) /\ h <> NIL_FRAME /\ fc_get (sw_fc w') h = c /\
+                  (forall h', h' <> h -> fc_get (sw_fc w') h' = fc_get (sw_fc w) h')
+  | other => fst r = NIL_FRAME /\ snd r <> 0 /\ err_msg w' (snd r) = snap_msg other
+  end.
+Proof. exact snap_result. Qed.
+
+(* TakeSnapshot maps the result as written: the frame (or nil, nil) when there is no error, else
+   (nil, &dbus.Error{Name: "org.cacophony.thermalrecorder.TakeSnapshot", Body: [err.Error()]}) *)
+Theorem C16_source_snapshot_service : forall lastFrame w,
+  src_TakeSnapshot lastFrame w = Ok (fst (ts_out lastFrame w)) (snd (ts_out lastFrame w)) /\
+  let r := fst (ts_out lastFrame w) in let w' := snd (ts_out lastFrame w) in
+  match snap_case lastFrame w with
+  | SQuiet => r = (NIL_FRAME, 0)
+  | SFrame h c => r = (h, 0) /\ fc_get (sw_fc w') h = c
+  | other => fst r = NIL_FRAME /\
+             exists m, snap_msg other = Some m /\ dbus_of w' (snd r) = Some (NAME_TAKE_SNAPSHOT, Some [m])
+  end.
+Proof. exact (fun lf w => conj (tie_TakeSnapshot lf w) (TakeSnapshot_result lf w)). Qed.
+
+(* CameraInfo: (nil, &dbus.Error{"...NoHeaderInfo", nil}) before the first header, else the map of the eight
+   header values under the keys of headers/headers.go ... *)
+Theorem C16_source_snapshot_camerainfo : forall w,
+  src_CameraInfo w = Ok (ci_ret w) (ci_world w) /\
+  match sw_hdr w with
+  | None => fst (ci_ret w) = 0 /\ dbus_of (ci_world w) (snd (ci_ret w)) = Some (NAME_NO_HEADER, None)
+  | Some h => snd (ci_ret w) = 0 /\
+              exists kvs, svget (ci_world w) (fst (ci_ret w)) = VMap kvs /\ map (entry_of (ci_world w)) kvs = camera_specs h
+  end.
+Proof. exact (fun w => conj (tie_CameraInfo w) (CameraInfo_result w)). Qed.
+
+(* ... read WITHOUT any lock (KNOWN FINDING race-var=headerInfo, here read off the source: nine reads of
+   headerInfo, no mutex operation) *)
+Theorem C16_source_snapshot_camerainfo_unlocked : forall w,
+  exists r w', src_CameraInfo w = Ok r w' /\
+    existsb is_lock (log_since w w') = false /\
+    forallb (fun e => match e with ERead SHeaderInfo => true | _ => false end) (log_since w w') = true /\
+    log_since w w' <> [] /\ disciplined (log_since w w') = false.
+Proof. exact CameraInfo_takes_no_lock. Qed.
+
+(* the handler's clause for processor.GetRecentFrame is what the translated method computes: CurrentFrame and
+   CopyRecent's copy, made under the ring's own mutex, of the slot before the current one *)
+Theorem C16_source_snapshot_GetRecentFrame : forall (W : Type) (ext : string -> list arg -> W -> Z * W) mp w d,
+  fl_wf (MotionProcessor.MotionProcessor_frameLoop mp) ->
+  let w1 := after_ext ext "FrameLoop.mu.Lock" [] w in
+  let rw := ext "Frame.CreateCopy"%string [AFrame (recent d (ring_of (MotionProcessor.MotionProcessor_frameLoop mp)))] w1 in
+  MotionProcessor.MotionProcessor_GetRecentFrame ext mp w =
+    Ok (mp, (MotionProcessor.MotionProcessor_CurrentFrame mp, fst rw)) (after_ext ext "FrameLoop.mu.Unlock" [] (snd rw)).
+Proof. exact tie_GetRecentFrame. Qed.
